@@ -1,6 +1,6 @@
 #!/bin/bash
 # confirm_all.sh <PROP>... : confirm every /tmp/out-<PROP>/<n> and write verdicts to /tmp/out-<PROP>/<n>/confirm.json
-for p in "$@"; do for d in /tmp/out-$p/*/; do
+for p in "$@"; do for d in /tmp/out${R2:+2}-$p/*/; do
   [ -f $d/patch.diff ] || continue
   [ -f $d/confirm.json ] && continue
   /verif/tools/confirm_mutant.sh $d > $d/confirm.json 2>/dev/null
